@@ -578,6 +578,19 @@ pub fn twide(g: &mut Gen, r: &mut Rng, cases: usize, max_keys: usize) {
         g.shape(&tr);
         g.op("ser 0".into());
         g.op("iter 0".into());
+        // the SAME final content built once, in ascending order, without re-upserts: the two replicas
+        // must be interchangeable and exchange nothing (the expected content is the executor's record)
+        {
+            let content: Vec<(Vec<u8>, Vec<u8>, Vec<u8>)> =
+                g.exec.trees[&0].content.iter().map(|(k, (kd, vd, _))| (k.clone(), kd.clone(), vd.clone())).collect();
+            g.op(format!("new 1 {base} n={n}"));
+            for (k, kd, vd) in &content {
+                g.op(format!("ups 1 {} {} {}", xtok(k), xtok(kd), xtok(vd)));
+            }
+            g.op("hash 1".into());
+            g.op("diff2 0 1".into());
+            g.op("same 0 1".into());
+        }
         if case < 2 {
             g.sample(format!("twide case {case}: {nk} keys, a higher-level key every {every}"));
         }
